@@ -36,6 +36,9 @@ def plan(tier, seed):
     for s in range(n):
         jobs.append({"variant": "c", "part": "kernel", "shard": s, "nshards": n,
                      "params": {"enc_len": 7 if thorough else 6, "auto_len": 6 if thorough else 5, "ext_len": 6 if thorough else 4}})
+    ns = 16 if thorough else 2
+    for s in range(ns):
+        jobs.append({"variant": "c" if s % 2 == 0 else "py", "part": "shapes", "shard": s, "nshards": ns, "params": {"stride": 1 if thorough else 20}})
     ncp = 16 if thorough else 2
     for s in range(ncp):
         jobs.append({"variant": "c" if s % 2 == 0 else "py", "part": "codepoints", "shard": s, "nshards": ncp, "params": {"all": thorough}})
@@ -356,6 +359,14 @@ def run(ctx):
                     if i % 100003 == 0:
                         ctx.sample({"s": s, "modes": ["encoded", "auto"]})
         ctx.notes["kernel_total"] = i
+        return
+    if ctx.part == "shapes":
+        from ..shapes import iter_shapes
+
+        stride = ctx.params["stride"] * ctx.nshards
+        for lab, text, kw in iter_shapes(stride, ctx.shard * ctx.params["stride"] + ctx.seed % ctx.params["stride"]):
+            check_one(ctx, text, True, "shapes")
+            check_one(ctx, text, False, "shapes")
         return
     if ctx.part == "codepoints":
         from ..gen import ascii_confusables
